@@ -1,12 +1,14 @@
 """C19 — topology views mirror the gate graph and answer graph queries correctly.
 
 Script (see coq/Topo/Model.v `run`, harness/src/bin/topo.rs):
-  nmod cnt_1 .. cnt_nmod   nch (len mode m0 g0 m1 g1 ..){nch}   query*
+  p  nmod cnt_1 .. cnt_nmod   nch (len mode m0 g0 m1 g1 ..){nch}   query*
+    p: where the process-global 16-bit ModuleId counter stands when the simulation is built (the runner burns ids until the
+    next ModuleId::gen() is p mod 2^16); first output record 10 nmod d z: d = module ids pairwise distinct, z = #ids == NULL.
     modules m0.. with cnt_i gates each; a chain g0 - g1 - .. - gh (h hops, g1..g(h-1) transit gates) is wired only if it has
     at least one hop and all its gates exist, are distinct and still unconnected; `mode` picks connect order/orientation.
   query = 1 global view | 2 r spanned(m_r) | 3 s dijkstra(m_s) | 4 connected | 5 bidirectional | 6 mask filter_nodes
         | 7 mask filter_edges | 8 m edges_for(m_m) | 9 k m1..mk from_modules([..])
-Output: view = 1 nn module{nn} ne (src sm sg em eg dst){ne} | 3 nn (0 | 1 src sm sg em eg dst){nn} | 4 b | 5 b
+Output: 10 nmod d z, then view = 1 nn module{nn} ne (src sm sg em eg dst){ne} | 3 nn (0 | 1 src sm sg em eg dst){nn} | 4 b | 5 b
         | 6 ne (..){ne} | 7 | 9 1
 """
 import itertools
@@ -17,7 +19,7 @@ COQ_PROP = "Properties/C19.v"; COQ_DIRS = ["Common", "Topo"]
 COQ_MODULE = "Topo.Model"; RUN_FN = "run"
 THEOREMS = ["C19_global_view_exact", "C19_from_modules_exact", "C19_spanned_exact", "C19_views_wellformed",
             "C19_connected_iff", "C19_bidirectional_iff", "C19_filter_exact", "C19_filter_nodes_view",
-            "C19_filter_edges_exact", "C19_first_hop_of_shortest_path", "C19_script_worlds"]
+            "C19_filter_edges_exact", "C19_first_hop_of_shortest_path", "C19_script_worlds", "C19_module_ids_distinct"]
 QUICK_N = 4000; THOROUGH_N = 150000
 CLAIM = dict(
     text="Machine-checked (Coq 8.16, axiom-free) for a function-by-function model of topology.rs as it is now (both work lists FIFO): for EVERY gate graph whose chains stay within the supported 16 hops - trees, stars, rings, multi-edges, self-loops, disconnected parts, transit gates anywhere - the global view has one node per module in module order and, per module, exactly one edge per endpoint gate in gate order, labelled with that gate and the far gate of its chain and leading to the node of the far gate's owner (from_modules on any duplicate-free module list: the same, restricted to chains ending inside the list); the view spanned from ANY root terminates, contains exactly the modules reachable from the root, each once, root first, with the same exact edges - proved via the invariant that every index handed to a pending module is its position in nodes++pending; connected() is true iff every node reaches every node (the recursive visit is a DFS whose depth is bounded by the node count); bidirectional() is true iff every edge u->v is answered by an edge v->u; filter_nodes keeps exactly the selected nodes in order and exactly the edges among them, re-indexed to the same modules (so a filtered exact view is the exact view of the kept modules); filter_edges keeps exactly the selected edges; dijkstra never panics for a source that is a node, terminates, and maps every reachable node other than the source to an edge leaving the source that starts a walk no walk undercuts (BFS layering invariant with lazy deletion), and maps neither the source nor unreachable nodes. Refuted by evaluation for the pinned code: LIFO dijkstra on the triangle, LIFO spanned on a root with two neighbours. The model is tied to des by differential runs of the extracted model against the real Sim/Gate/Topology API on generated gate graphs (including chains of 17..22 hops, where the model reproduces the 16-hop cut-off) and by an independent monitor that recomputes node sets, edge multisets, reachability and BFS distances from the wiring the script declares.",
@@ -29,12 +31,17 @@ RULE = ("scripts declare 1..14 modules with gates in shuffled creation order and
         " order/orientation), plus a malformed stream (re-used / unknown gates, chains without a hop) and a separate stream with"
         " 17..22-hop chains that is outside C19's quantifier (compared with the model, excluded from the monitor); queries: global"
         " view, spanned from every kind of root, from_modules on subsets/permutations, dijkstra from every source, connected,"
-        " bidirectional, filter_nodes with random masks, filter_edges, edges_for; non-trivial = distinct script with a view of"
+        " bidirectional, filter_nodes with random masks, filter_edges, edges_for; every script also fixes where the process-global"
+        " 16-bit ModuleId counter stands when the simulation is built (fresh process 0xff, mid-range, within a few ids of the 2^16"
+        " wrap so that the modules' ids straddle it, below 0xff) and the runner reports whether the ids are pairwise distinct;"
+        " non-trivial = distinct script with a view of"
         " at least two nodes and one edge that hits at least three targeted mechanisms")
 TRUSTED = ["the gate layer is seen through an abstract view (module = ordered gate list, endpoint gate = the gate sequence path_iter"
            " visits); that path_iter really walks the wired chain is C08's theorem and is re-validated here by the differential runs",
            "node and module identity: ModuleId / ObjectPath are represented by the module's index; Edge.from/to node ids are private,"
-           " the harness prints the position of the edge end's module within nodes() (equal to the id when nodes are distinct)",
+           " the harness prints the position of the edge end's module within nodes() (equal to the id when nodes are distinct);"
+           " that the ModuleIds of one simulation are pairwise distinct is reported by the runner for every script and checked"
+           " by the monitor as an explicit premise (at every position of the id counter, including across the 2^16 wrap)",
            "the FxHashMap returned by dijkstra is read per node (its iteration order is unobservable)"]
 ASSUMPTIONS = ["chains within the supported 16 hops (from_modules cuts a longer chain off after 16 connections and reports a transit"
                " gate as its end; such scripts are generated only in the stream labelled outside the quantifier)",
@@ -53,7 +60,7 @@ def _take_lp(s, i):
 
 def parse(script):
     """-> (counts, chains [(mode, [(m,g)..])] as declared (valid or not), queries, index where the queries start)"""
-    counts, i = _take_lp(script, 0)
+    counts, i = _take_lp(script, 1)           # script[0] is the id-counter position
     counts = [min(c, MAXG) for c in counts[:MAXMOD]]
     chains = []
     if i < len(script):
@@ -153,7 +160,7 @@ def bfs_dist(edges, s):
 
 def pretty(script):
     w = World(script)
-    s = "modules=%d gates=%s; chains: " % (w.nm, w.counts)
+    s = "next ModuleId=%d; modules=%d gates=%s; chains: " % (id_pos(script), w.nm, w.counts)
     s += " | ".join("-".join("m%d.g%d" % g for g in c) for c in w.chains) or "none"
     if w.dropped:
         s += " (+%d chain(s) not wired)" % w.dropped
@@ -174,6 +181,8 @@ def pretty(script):
 def records(script, out):
     """Align the output with the queries; yields (query, record) or raises ValueError."""
     w = World(script)
+    if out[:1] == [10]:
+        out = out[4:]          # the premise record, see monitor()
     i = 0; res = []
     for q in w.queries:
         if i >= len(out):
@@ -263,9 +272,30 @@ def check_edges(printed, order, expected, what):
     return None
 
 
+def id_pos(script):
+    return script[0] % 65536 if script else 0xff
+
+
 def monitor(script, out):
-    """C19 evaluated on the implementation's output and the graph the script declares."""
+    """C19 evaluated on the implementation's output and the graph the script declares.  The theorems identify a module
+    with its id (from_modules/spanned look the owner of a chain end up by ModuleId); that the ids of one simulation are
+    pairwise distinct is therefore checked first, as an explicit premise, on what the implementation reports."""
+    if not script:
+        return None if out == [] else "output for an empty script: %s" % out
     w = World(script)
+    if len(out) < 4 or out[0] != 10 or out[1] != w.nm:
+        return "malformed output: no premise record `10 %d d z` in front: %s" % (w.nm, out[:6])
+    prem = None
+    if out[2] != 1:
+        prem = ("premise of C19 broken: two of the %d modules of one simulation share a ModuleId (id counter at %d when the"
+                " simulation was built)" % (w.nm, id_pos(script)))
+    msg = monitor_views(script, out, w)
+    if msg and prem:
+        return msg + " [" + prem + "]"
+    return msg or prem
+
+
+def monitor_views(script, out, w):
     if w.max_hops > MAXHOPS:
         return None            # outside the quantifier (chains beyond the supported 16 hops)
     try:
@@ -357,8 +387,25 @@ def monitor(script, out):
 
 # ----------------------------------------------------------------------------- mechanisms
 def mechanisms(script, out):
-    w = World(script)
+    """Targeted mechanisms a script hits; robust against output that does not mirror the declared graph."""
     m = set()
+    try:
+        _mechanisms(script, out, m)
+    except (KeyError, IndexError, ValueError):
+        pass
+    return m
+
+
+def _mechanisms(script, out, m):
+    if not script:
+        return
+    w = World(script)
+    p = id_pos(script)
+    if p + w.nm > 65536 and w.nm >= 2: m.add("ids_straddle_u16_wrap")
+    elif p == 0xff: m.add("id_counter_fresh_process")
+    elif 0x100 <= p and p + w.nm <= 65536 - 64: m.add("id_counter_mid_range")
+    elif p < 0xff: m.add("id_counter_below_0xff")
+    if len(out) >= 4 and out[0] == 10 and out[3]: m.add("module_with_null_id")
     if w.max_hops > MAXHOPS:
         m.add("over_16_hops_outside_quantifier")
     if w.dropped: m.add("malformed_chain_not_wired")
@@ -442,12 +489,13 @@ def nontrivial(script, out):
     except (ValueError, IndexError):
         return False
     big = any(r[0] == 1 and r[1] >= 2 and r[2 + r[1]] >= 1 for q, r in recs)
-    return big and len(mechanisms(script, out) - {"over_16_hops_outside_quantifier"}) >= 3
+    ms = {m for m in mechanisms(script, out) if not m.startswith("id_counter_")}
+    return big and len(ms - {"over_16_hops_outside_quantifier"}) >= 3
 
 
 # ----------------------------------------------------------------------------- generation
-def encode(counts, chains, queries):
-    s = [len(counts)] + list(counts) + [len(chains)]
+def encode(counts, chains, queries, p=0xff):
+    s = [p, len(counts)] + list(counts) + [len(chains)]
     for mode, c in chains:
         body = [mode] + [x for g in c for x in g]
         s += [len(body)] + body
@@ -610,7 +658,24 @@ def gen_queries(rng, nm, counts):
 def gen_script(rng):
     r = rng.random()
     nm, counts, chains = gen_world(rng, long_chain=(r < 0.04), malformed=(0.04 <= r < 0.12))
-    return encode(counts, chains, gen_queries(rng, nm, counts))
+    return encode(counts, chains, gen_queries(rng, nm, counts), gen_id_pos(rng, nm))
+
+
+def gen_id_pos(rng, nm):
+    """Where the process-global ModuleId counter stands: a fresh process (0xff), somewhere in the middle, or so close to
+    the 2^16 wrap that the simulation's modules straddle it (ids .., 0xfffe, 0xffff, 0 = ModuleId::NULL, 1, ..)."""
+    r = rng.random()
+    if r < 0.35:
+        return 0xff
+    if r < 0.55:
+        return rng.randint(0x100, 65000)
+    if r < 0.85:
+        return 65536 - rng.randint(1, max(1, nm - 1)) if nm >= 2 else 65535     # first module(s) before, rest after the wrap
+    if r < 0.92:
+        return rng.choice([0, 1, 65535, 65536 - nm, 0xfe, 0x100])
+    if r < 0.96:
+        return rng.randint(0, 0xfe)
+    return 65536 * rng.randint(1, 3) + rng.choice([0xff, 65534, 65535])         # taken modulo 2^16
 
 
 def gen(rng, n):
@@ -622,6 +687,7 @@ def exhaustive():
     """All gate graphs on at most 3 modules with at most 2 gates each whose chains are direct connections (every partial
     matching of the gates), each queried through the global view and the view spanned from every root, with dijkstra from
     every source, connected and bidirectional; plus every single two-hop chain through a transit gate."""
+    k = 0
     for nm in (1, 2, 3):
         for counts in itertools.product(range(3), repeat=nm):
             gates = [(m, g) for m in range(nm) for g in range(counts[m])]
@@ -644,4 +710,5 @@ def exhaustive():
                 qs = [[1], [4], [5]] + [[3, s] for s in range(nm)]
                 for r in range(nm):
                     qs += [[2, r], [4], [5]] + [[3, s] for s in range(nm)]
-                yield encode(list(counts), [(0, c) for c in chains], qs)
+                k += 1
+                yield encode(list(counts), [(0, c) for c in chains], qs, [0xff, 65535, 65534, 40000, 65533][k % 5])
